@@ -837,7 +837,7 @@ func (vc *VC) appendOp(st *State, v *ssa.Call, args []Term, guard string) {
 		tread = sx("select", sx("sarr", t.S), "@K@")
 	} else {
 		tlen = sx("sl_len", t.S)
-		tread = sx("select", sx("select", cur, sx("sl_ref", t.S)), sx("+", sx("sl_off", t.S), "@K@"))
+		tread = sx("select", sx("select", cur, sx("sl_ref", t.S)), sx("sl_idx", t.S, "@K@"))
 	}
 	// appending nothing returns s
 	r := vc.fresh("app", "Slice")
@@ -852,11 +852,11 @@ func (vc *VC) appendOp(st *State, v *ssa.Call, args []Term, guard string) {
 	// contents
 	inner := vc.fresh("appel", "(Array Int "+esort+")")
 	oldInner := sx("select", cur, sx("sl_ref", s.S))
-	body := sx("=", sx("select", inner, sx("+", sx("sl_off", r), "j")),
+	body := sx("=", sx("select", inner, sx("sl_idx", r, "j")),
 		sx("ite", sx("<", "j", sx("sl_len", s.S)),
-			sx("select", oldInner, sx("+", sx("sl_off", s.S), "j")),
+			sx("select", oldInner, sx("sl_idx", s.S, "j")),
 			strings.ReplaceAll(tread, "@K@", sx("-", "j", sx("sl_len", s.S)))))
-	vc.assume(fmt.Sprintf("(forall ((j Int)) (! (=> (and (<= 0 j) (< j %s)) %s) :pattern ((select %s (+ (sl_off %s) j)))))", newLen, body, inner, r))
+	vc.assume(fmt.Sprintf("(forall ((j Int)) (! (=> (and (<= 0 j) (< j %s)) %s) :pattern ((select %s (sl_idx %s j)))))", newLen, body, inner, r))
 	// in-place append leaves the rest of the backing array alone
 	vc.assume(implies(fits, fmt.Sprintf("(forall ((j Int)) (! (=> (or (< j (+ (sl_off %s) (sl_len %s))) (>= j (+ (sl_off %s) %s))) (= (select %s j) (select %s j))) :pattern ((select %s j))))",
 		s.S, s.S, s.S, newLen, inner, oldInner, inner)))
